@@ -23,7 +23,8 @@ MANIFEST = dict(
           "in (0, A(0)) (continuity, strict decrease and the limit 0 of the summed activity: C15_time_exists_unique, "
           "C15_activity_decreasing) and, over the reals, is independent of the rest-time list; a Newton step with the true derivative from the left of the root moves towards it and does "
           "not pass it (convexity), and so does every later iterate, for any number of steps "
-          "(C15_newton_iterates_left).  One full-strength statement remains REFUTED on the faithful model, with witness "
+          "(C15_newton_iterates_left), the start value max_i(-log(target/Ia_i)/La_i + To) being at or left of the root "
+          "(C15_start_value_left).  One full-strength statement remains REFUTED on the faithful model, with witness "
           "(known finding): because exp overflows above 709.78, the answer depends on the rest-time list and an error "
           "other than RuntimeError is raised (1 uCi, half-life 3.6 s, target 2 uCi: rest_times=[2] -> OverflowError, "
           "[0] -> 0).  Tie: samples x rest-time lists (with/without 0, any order) x targets 1e-9..10 x A(0); for every "
